@@ -196,6 +196,16 @@ Fixpoint anc_fuel (fuel : nat) (g : dag) (a d : N) : bool :=
 (** [is_ancestor(a, d)] (reflexive). Parents have smaller numbers, so depth <= number. *)
 Definition dag_ancb (g : dag) (a d : N) : bool := anc_fuel (N.to_nat d) g a d.
 
+(** Well-formedness of the case's DAG (parents are earlier commits): generator invariant,
+    checked on every case; under it [dag_ancb] is reflexive, transitive and antisymmetric
+    and coincides with reachability along parent edges (Proofs/C12Dag.v). *)
+Fixpoint wf_from (k : N) (g : dag) : bool :=
+  match g with
+  | [] => true
+  | ps :: t => forallb (fun p => N.ltb 0 p && N.ltb p k) ps && wf_from (N.succ k) t
+  end.
+Definition wf_dagb (g : dag) : bool := wf_from 1 g.
+
 Definition to_term (n : N) : option N := if N.eqb n 0 then None else Some n.
 Definition of_term (t : option N) : N := match t with None => 0%N | Some n => n end.
 
@@ -217,5 +227,6 @@ Definition okb (c : case) : bool :=
 Definition check_case (c : case) : N :=
   let model := merge_ref_targets N.eqb (dag_ancb (c_dag c))
                  (map to_term (c_left c)) (map to_term (c_base c)) (map to_term (c_right c)) in
-  let corr := negb (c_failed c) && list_eqb N.eqb (map of_term model) (c_result c) in
+  let corr := wf_dagb (c_dag c) && negb (c_failed c)
+              && list_eqb N.eqb (map of_term model) (c_result c) in
   verdict corr (okb c) false 1.
